@@ -268,6 +268,100 @@ func scenarios(w *bufio.Writer) {
 		n.op("T 2 1", func() { n.d.OnTimeout(2, 1) })
 		endRun(w, mon, n)
 	}
+	// C08 (fourth-round seeded change C08d): anti-MEV, N=4, fault-free, every message delivered - but node 3 gets the round in
+	// an unlucky order: the proposal, two PreCommits, all three Commits, the third PreCommit (the pre-block is processed while
+	// the node has not sent its own PreCommit) and only then the PrepareResponses. Its own PreCommit must still be followed by
+	// the verification of the kept Commits, its own Commit and the block
+	{
+		mon := begin(4, 0, 0)
+		nodes := make([]*node, 4)
+		for i := range nodes {
+			nodes[i] = mkScenNode(mon, i, mkVals(4), 0, w)
+			nodes[i].height = 0
+		}
+		for _, n := range nodes {
+			n.start(0)
+		}
+		type env struct {
+			from, to int
+			p        *Payload
+		}
+		var q []env
+		collect := func() {
+			for _, n := range nodes {
+				for _, p := range n.out {
+					for _, m := range nodes {
+						if m.id != n.id {
+							q = append(q, env{n.id, m.id, p})
+						}
+					}
+				}
+				n.out = nil
+			}
+		}
+		deliver := func(ok func(e env) bool) bool {
+			collect()
+			for i, e := range q {
+				if ok(e) {
+					q = append(q[:i:i], q[i+1:]...)
+					nodes[e.to].recv(e.p)
+					collect()
+					return true
+				}
+			}
+			return false
+		}
+		for deliver(func(e env) bool { return e.p.T == dbft.PrepareRequestType }) {
+		}
+		for deliver(func(e env) bool { return e.to != 3 }) {
+		}
+		one := func(t dbft.MessageType, from int) {
+			deliver(func(e env) bool { return e.to == 3 && e.p.T == t && e.from == from })
+		}
+		one(dbft.PreCommitType, 0)
+		one(dbft.PreCommitType, 1)
+		one(dbft.CommitType, 0)
+		one(dbft.CommitType, 1)
+		one(dbft.CommitType, 2)
+		one(dbft.PreCommitType, 2)
+		for deliver(func(e env) bool { return true }) {
+		}
+		fmt.Fprintf(w, "NOTE C08 unlucky order at node 3: heights %d %d %d %d\n", nodes[0].height, nodes[1].height, nodes[2].height, nodes[3].height)
+		mon.tick("C08")
+		if nodes[3].height != 1 {
+			mon.nhit(nodes[3], "C08", "undecided-after-full-delivery", fmt.Sprintf("node 3 has not decided height 1 (ledger height %d) although every message of the fault-free anti-MEV round was delivered to it", nodes[3].height))
+		}
+		endRun(w, mon, nodes...)
+	}
+	// C11 / C13 (fourth-round seeded change C11d): a node whose key is not in the validator list (the application does not
+	// call it watch-only) receives proposals that the application rejects - the PrepareRequest itself, then a proposal whose
+	// block fails verification: nothing may be broadcast and nothing may panic (a ChangeView of its own has no slot to go to)
+	{
+		mon := begin(4, -1, 0)
+		n := mkScenNode(mon, 5, mkVals(4), -1, w)
+		n.badTx = map[uint64]bool{666: true}
+		n.start(0)
+		n.rejectVerify = map[string]bool{"VPREQ": true}
+		n.recv(&Payload{dbft.PrepareRequestType, 1, 0, 1, prepReq{5000000, 9, nil}})
+		n.rejectVerify = nil
+		n.recv(&Payload{dbft.PrepareRequestType, 1, 0, 1, prepReq{5000000, 9, []H{Tx(666).Hash()}}})
+		endRun(w, mon, n)
+	}
+	// C07 / C13 (fourth-round seeded change C07d): a validator restarted in watch-only mode (the application still reports its
+	// key) receives a PreCommit bearing its own index - its earlier incarnation's - and the PreCommits of M-1 others: it has not
+	// itself broadcast a PreCommit, and must neither sign nor broadcast
+	{
+		mon := begin(4, 0, 0)
+		n := mkScenNode(mon, 2, mkVals(4), 0, w, func(n *node) { n.wo = true })
+		n.height = 0
+		n.start(0)
+		n.recv(&Payload{dbft.PrepareRequestType, 1, 0, 1, prepReq{5000000, 9, nil}})
+		pb := &PreBlock{idx: 1, prev: "", ts: 5000000, nonce: 9}
+		for _, i := range []uint16{2, 0, 1} {
+			n.recv(&Payload{dbft.PreCommitType, 1, 0, i, preCommit{sigv{100 + int(i), pb.Hash()}}})
+		}
+		endRun(w, mon, n)
+	}
 }
 
 // pump delivers every broadcast payload to every other node in FIFO order until quiet (or max deliveries).
